@@ -31,6 +31,11 @@ def productRepeat {α : Type} (xs : List α) : Nat → List (List α)
   | 0 => [[]]
   | n+1 => xs.flatMap fun x => (productRepeat xs n).map (x :: ·)
 
+/-- `heapq.nsmallest(n, xs)` for elements compared with `lt` (`__lt__`): the first `n` of `sorted(xs)` (a stable sort that only
+    uses `<`); nothing for `n ≤ 0` -/
+def nsmallest {α : Type} (lt : α → α → Bool) (n : Nat) (xs : List α) : List α :=
+  (xs.mergeSort fun a b => !lt b a).take n
+
 /-- canonical text of a value, the same text `harness/xlate_selftest.py` prints for the Python value -/
 class Show (α : Type) where
   show_ : α → String
